@@ -84,7 +84,11 @@ PROPS = {
     "C09": {"lean": CTLMOD + ["JivaVerif.Properties.C09Restart"], "prefixes": ["c09_", "maxRevCount_", "ctl_reachable_inv", "inv_step", "inv_run", "countP_overlap", "legalLeader_spec"],
             "runs": [ctl("election", 480, 30, 9000, 40, 15),
                      {"engine": "clusterdiff", "profile": "healthy", "salt": 71, "quick": {"n": 320, "len": 40, "timeout": 900}, "thorough": {"n": 6000, "len": 50, "timeout": 3000}},
-                     {"engine": "clusterdiff", "profile": "any", "salt": 72, "quick": {"n": 320, "len": 40, "timeout": 900}, "thorough": {"n": 6000, "len": 50, "timeout": 3000}}],
+                     {"engine": "clusterdiff", "profile": "any", "salt": 72, "quick": {"n": 320, "len": 40, "timeout": 900}, "thorough": {"n": 6000, "len": 50, "timeout": 3000}},
+                     # what the whole-volume model takes from the replica level is re-checked here as well: the counter
+                     # counts applied writes and SetRevisionCounter sets it, also to a lower value (the promotion of a
+                     # replica that was ahead)
+                     rep("counter", 96, 30, 1500, 45, 74)],
             "modelled": CTL + [
                 "partial: the replica-side registration loop (sync.AddReplica, 5 s ticker) is modelled as 'registration may repeat'",
                 "the last sentence of C09 (stop and restart) is stated over the whole-volume model Model/Cluster.lean: replica directories (writes held, persisted counter, persisted rebuilding flag) under one controller whose gate, acknowledgement rule and election are the controller model's; c09_restart_serves_acked is proved for every history whose stops find a quorum of replicas RW and not rebuilding; c09_unhealthy_stop_loses_ack shows the hypothesis is needed (known finding, DESIGN 6.3)",
